@@ -258,8 +258,17 @@ impl<'a, 'tcx> Cx<'a, 'tcx> {
         if let Const::Unevaluated(uv, _) = c.const_ {
             let _ = write!(o, ",\"name\":{}", esc(&path_s(self.tcx, uv.def)));
         }
+        // A constant that belongs to the item being built (an inline `const { .. }` block, a promoted) can only be
+        // evaluated after this very body exists: asking for its value from inside `mir_built` is a query cycle, which
+        // rustc reports as a hard error (e.g. `thread_local! { static X: T = const { .. } }`). Those are left unevaluated.
+        let own = match c.const_ {
+            Const::Unevaluated(uv, _) => {
+                uv.promoted.is_some() || self.tcx.typeck_root_def_id(uv.def) == self.tcx.typeck_root_def_id(self.did.to_def_id())
+            }
+            _ => false,
+        };
         let val = std::panic::catch_unwind(std::panic::AssertUnwindSafe(|| {
-            if c.const_.has_non_region_param_hack() {
+            if own || c.const_.has_non_region_param_hack() {
                 return None;
             }
             c.const_.eval(self.tcx, self.tenv, c.span).ok()
